@@ -4,3 +4,4 @@ import Argot.Props.C19
 import Argot.Props.C20
 import Argot.Props.C15
 import Argot.Props.C09
+import Argot.Props.C03
